@@ -380,6 +380,16 @@ def table():
     return _TABLE
 
 
+_FLOAT_IDX = []
+
+
+def float_case_indices():
+    if not _FLOAT_IDX:
+        _FLOAT_IDX.extend(i for i, c in enumerate(table()) if c.field in ("f32", "f64") or
+                          (c.field in ("fa", "da") and c.op == "item"))
+    return _FLOAT_IDX
+
+
 # ---------------------------------------------------------------------- execution of one assignment
 def materialise(v):
     """turn table placeholders into fresh objects"""
@@ -552,7 +562,11 @@ class ValidationRun:
         for _ in range(n):
             k = ch.weighted("prog.op", [(5, "assign"), (3, "probe"), (4 if depth < 3 else 0, "block"), (2, "grab"), (3, "use")])
             if k == "assign":
-                out.append(("assign", ch.pick("prog.case", len(tbl))))
+                if getattr(self, "float_bias", False) and ch.flag("prog.floatcase", 2, 3):
+                    fl = float_case_indices()
+                    out.append(("assign", fl[ch.pick("prog.fcase", len(fl))]))
+                else:
+                    out.append(("assign", ch.pick("prog.case", len(tbl))))
             elif k == "grab":
                 out.append(("grab", ch.choose("prog.grabf", ["ia", "ua", "fa", "da", "ba", "sa", "la"])))
             elif k == "use":
@@ -654,6 +668,23 @@ class ValidationRun:
                     pass
                 self.t(f"{who} depth={real_depth}: left block")
 
+    def make_tracer(self, sched):
+        ch = self.ch
+        res = self.res
+
+        def local(frame, event, arg):
+            if event == "line" and ch.flag("line.switch", 1, 12):
+                res.stats["line_preemptions"] += 1
+                sched.preempt("line")
+            return local
+
+        def tracer(frame, event, arg):
+            if event == "call" and frame.f_code.co_filename.endswith("pyrtma/validators.py"):
+                return local
+            return None
+
+        return tracer
+
     @staticmethod
     def in_force_now(msg) -> bool:
         keep = msg._i8
@@ -683,6 +714,9 @@ class ValidationRun:
                 res.enumerated.setdefault("table_cases", set()).add(f["case"])
             else:
                 ntasks = 1 + ch.pick("cfg.ntasks", 3)
+                # line-level mode: tasks may also be pre-empted between any two lines of the validators
+                self.linemode = ntasks > 1 and ch.flag("cfg.linemode", 1, 3)
+                self.float_bias = self.linemode
                 progs = [self.gen_program() for _ in range(ntasks)]
                 msgs = []
                 for i in range(ntasks):
@@ -690,9 +724,23 @@ class ValidationRun:
                     fill(m, i + 1)
                     msgs.append(m)
                 tasks = []
+                tracer = self.make_tracer(sched) if self.linemode else None
+
+                def body(i):
+                    import sys
+                    if tracer is not None:
+                        sys.settrace(tracer)
+                    try:
+                        self.exec_program(f"task{i}", msgs[i], progs[i], 0, sched)
+                    finally:
+                        if tracer is not None:
+                            sys.settrace(None)
+
                 for i in range(1, ntasks):
-                    tasks.append(sched.spawn(f"task{i}", (lambda i=i: self.exec_program(f"task{i}", msgs[i], progs[i], 0, sched))))
-                self.exec_program("task0", msgs[0], progs[0], 0, sched)
+                    tasks.append(sched.spawn(f"task{i}", (lambda i=i: body(i))))
+                if self.linemode:
+                    res.probes["line_level_mode"] += 1
+                body(0)
                 # let the others finish
                 guard = 0
                 while any(not st.done for st in tasks):
